@@ -280,7 +280,8 @@ sds_read_header (SF_PRIVATE *psf, SDS_PRIVATE *psds)
 		psf_log_printf (psf, "bad end : %X\n", byte & 0xFF) ;
 
 	for (blockcount = 0 ; bytesread < psf->filelength ; blockcount++)
-	{
+	{	/* A read that delivers nothing must end the scan (marker would keep its previous value). */
+		marker = 0 ;
 		bytesread += (int) psf_fread (&marker, 1, 2, psf) ;
 
 		if (marker == 0)
